@@ -33,7 +33,7 @@ SMALL_SCOPE = [(fl, pol, lim, 5) for fl in ("global", "thread", "async") for pol
 def macro_stream(nontrivial=(), quick=320, thorough=12000, what=""):
     return {
         "kind": "macro",
-        "what": what or "L2: real #[cache]/#[cache_async] generated functions (corpus of 94 decorated functions: 48 random attribute x signature x return-type combinations, 4 fixed ones, 30 systematic flavour x policy combinations with limit+invalidate_on / max_memory+cache_if, 12 further signature shapes (two integers, methods with string+integer and three scalars, Vec, tuple, Option+f64) sync and async), real invalidation and statistics registries, real threads for thread scope, virtual time through the verif hooks vs Cachelito.sysStep; outputs, predicate logs, statistics and the dump of every cache instance compared per operation",
+        "what": what or "L2: real #[cache]/#[cache_async] generated functions (corpus of 106 decorated functions: 48 random attribute x signature x return-type combinations, 4 fixed ones, 30 systematic flavour x policy combinations with limit+invalidate_on / max_memory+cache_if, 12 further signature shapes (two integers, methods with string+integer and three scalars, Vec, tuple, Option+f64) sync and async, 12 plain functions (every policy, sync global and async)), real invalidation and statistics registries, real threads for thread scope, virtual time through the verif hooks vs Cachelito.sysStep; outputs, predicate logs, statistics and the dump of every cache instance compared per operation",
         "episodes": {"quick": quick, "thorough": thorough},
         "ops": {"quick": 40, "thorough": 80},
         "nontrivial": list(nontrivial),
@@ -45,7 +45,7 @@ def sched_stream(nontrivial=(), quick=(6, 4, 120), thorough=(36, 10, 1000), what
 
 def hammer_stream(quick=(3, 8, 400), thorough=(20, 12, 2500)):
     return {"kind": "hammer", "budget": {"quick": quick, "thorough": thorough}, "nontrivial": [],
-            "what": "free-running parallel stress: 8-12 real threads call plain generated functions (sync global and async) whose results are already stored, with large values; any body execution or wrong value is a violation for SOME real schedule (the scheduler of the L3 stream serialises threads and cannot contend inside DashMap shards)"}
+            "what": "free-running parallel stress: 8-12 real threads call plain generated functions (sync global and async, every policy) whose results are already stored, with large values; any body execution or wrong value is a violation for SOME real schedule (the scheduler of the L3 stream serialises threads and cannot contend inside DashMap shards); second phase: callers race with a thread that keeps invalidating the same tagged cache (by tag and conditionally): at the end hits+misses must equal the number of completed calls and misses the number of body executions"}
 
 def static_stream():
     return {"kind": "static", "nontrivial": [],
@@ -88,7 +88,9 @@ PROPS = {
     },
     "C03": {
         "lean_modules": ["Cachelito.Props.C03", "Cachelito.Props.C03c"],
-        "streams": [macro_stream(nontrivial=["c03-call"]), hammer_stream()],
+        "streams": [macro_stream(nontrivial=["c03-call"]), hammer_stream(),
+                    sched_stream(nontrivial=["c03-plain-concurrent-run", "calls-only-quiescent-check"], quick=(6, 4, 80),
+                                 what="L3 calls-only programs: 2-3 real threads call ONE cache with overlapping arguments under the deterministic scheduler (switches at every lock acquisition, so lookups fall between the two halves of another thread's store); plain caches of every policy: once a storing call has returned no later call may run the body; limited caches: a stored key may vanish only from a FULL cache")],
         "monitors": ["C03"],
         "rule": "call histories on real generated functions; non-trivial = a call of a function configured without limit/ttl/max_memory/predicates before any invalidation touched it (the configuration the property speaks about)",
         "level_text": "Lean theorems (sequential histories): in the plain configuration the stored key set equals the set of keys called on that cache instance, the body runs exactly once per distinct key and instance (per thread for thread scope), every repeated call is served the first value without running the body. Tied to the code by execution counters and cache dumps of real generated functions. Concurrent clause (C03c, interleaving model of wrapper calls = lookup; body; store at critical-section granularity, any number of callers, any schedule, both engines): a stored key stays stored, no lookup after a store-write misses, so a call starting after a storing call returned never runs the body, and the number of body runs for a key is at most the number of lookups that read before the first store-write. Tied to the code by a free-running parallel stress stream (any body execution for a stored key is a violation).",
@@ -97,7 +99,9 @@ PROPS = {
     },
     "C14": {
         "lean_modules": ["Cachelito.Props.C14"],
-        "streams": [macro_stream(nontrivial=["c14-shared-hit", "call"]), hammer_stream()],
+        "streams": [macro_stream(nontrivial=["c14-shared-hit", "call"]), hammer_stream(),
+                    sched_stream(nontrivial=["c03-plain-concurrent-run", "calls-only-quiescent-check"], quick=(6, 4, 80),
+                                 what="L3 calls-only programs on shared (global / async) caches under the deterministic scheduler: a value stored by a call that has returned is served to every call that starts later on any thread; a stored key vanishes only from a full cache")],
         "monitors": ["C14"],
         "rule": "call histories distributed over 3 real threads (thread-scope functions called on any of them, global/async functions too); non-trivial = any call (every call checks the frame: no other instance changes) ",
         "level_text": "Lean theorems: a call of a thread-scope function changes only the calling thread's instance (all other instances equal), the state and outputs of a thread are determined by its own sub-history (interleaving independence), a thread is never served another thread's value; global/async functions have one instance whatever the calling thread, and a stored, unexpired key is a hit for any thread. Tied to the code with real OS threads and per-thread dumps.",
@@ -109,7 +113,7 @@ PROPS = {
         "streams": [lines_stream("attrs_diff", "attrs", ["gen", "{seed}", "{n}", "{n}"], 1500, 20000,
                                  "attrs: generated attribute lists (mostly valid: every attribute present/absent, six policies, limits, ttls, max_memory in all forms and letter cases, weights, names, arrays, paths; plus a malformed stream: unknown names, typos, wrong literal kinds, out-of-set policy/scope, negative/overflowing numbers, repeated attributes with an invalid occurrence) through the REAL parse_sync_attributes / parse_async_attributes (catch_unwind) vs Attrs.parse; is_result and has_max_memory expressions copied verbatim", r"^[AR]\|"),
                     {"kind": "compile", "nontrivial": [], "what": "compile corpus through rustc: 22 invalid attribute lists (unknown names, typos, wrong literal kinds, out-of-set policy/scope, negative/float/overflowing numbers, repeated attribute with an invalid occurrence) must fail to compile with the REAL macros, 5 valid controls must compile (one cargo check --examples --keep-going)"},
-                    macro_stream(nontrivial=["call"], what="L2 behavioural fidelity: 94 generated functions covering attribute values x signature shapes (0-4 args of integer, bool, char, string, Option, Vec, tuple and float types, &self / &mut self / self / none) x return types compile and behave like the core cache configured with the values as written (full cache dumps compared per call)")],
+                    macro_stream(nontrivial=["call"], what="L2 behavioural fidelity: 106 generated functions covering attribute values x signature shapes (0-4 args of integer, bool, char, string, Option, Vec, tuple and float types, &self / &mut self / self / none) x return types compile and behave like the core cache configured with the values as written (full cache dumps compared per call)")],
         "monitors": ["C19"],
         "rule": "attrs: one attribute list per line, distinct lines counted; L2: every call on a generated function",
         "level_text": "Lean theorems about the transcribed attribute parser: every Valid list is accepted with exactly its meaning (last occurrence wins, defaults otherwise, n KB/MB/GB = n*1024^k in any letter case), every list containing an unknown name or an invalid policy/scope/limit/ttl/max_memory/frequency_weight value ANYWHERE is rejected (parser error, spliced compile_error or panic - all compile failures), overflowing sizes are rejected, the textual has_max_memory test equals maxMemory.isSome, isResultSpelling accepts exactly the two spellings. Tied to the code by running the real parser on generated token streams and by the compiled corpus of generated functions whose behaviour is compared with the model per call. Rejection 'at compile time' is checked end to end by compiling invalid lists with the real macros. That rustc accepts the generated code for EVERY valid program is sampled by the corpora, not proved.",
@@ -217,7 +221,9 @@ PROPS = {
     },
     "C17": {
         "lean_modules": ["Cachelito.Props.C17", "Cachelito.Props.C17s"],
-        "streams": [sched_stream(nontrivial=["nested-acquisition"]), static_stream()],
+        "streams": [sched_stream(nontrivial=["nested-acquisition"]), static_stream(),
+                    core_stream(nontrivial=["eviction", "expiry"], quick=300, thorough=12000,
+                                what="L1 engine histories with injected orphan queue slots (the states concurrent invalidations leave behind) under a watchdog: every operation must RETURN - an eviction loop that stops making progress while it holds the queue mutex blocks every other caller for ever")],
         "monitors": ["C17"],
         "rule": "scheduled runs of real threads; a run is non-trivial when some thread acquired a lock while holding another (nesting is what can deadlock); distinct by (schedule, event trace)",
         "level_text": "Lean theorems: for any number of threads running operations whose lock skeletons are rank-disciplined (every nested acquisition strictly increases the rank registry < queue mutex < store lock), in every reachable state with an unfinished thread some thread is enabled (also under writer preference and any work-conserving granting policy), every maximal run finishes all threads, and EVERY operation of cachelito (46-entry skeleton table, any universe of caches) is rank-disciplined; the pre-fix conditional-invalidation callback is not, with a kernel-checked deadlocked state. Tied to the code by recording every real lock acquisition/release (hook H1) under a deterministic scheduler: each operation's real trace must be a path of its skeleton and rank-ordered; no explored schedule deadlocks. Translator tie: the lock nesting of the current source (lexical guard scopes, calls, registry callbacks) is extracted on every run (Generated/LockNesting.lean); C17s proves that every nesting strictly increases the rank, is a nesting of THE TABLE, and that any skeleton with only such nestings is rank-disciplined.",
@@ -228,7 +234,9 @@ PROPS = {
     "C20": {
         "lean_modules": ["Cachelito.Props.C20"],
         "streams": [macro_stream(nontrivial=["c20-suspended", "c20-dropped", "c20-resumed"], quick=300,
-                                 what="L2 with manual polling: real #[cache_async] functions whose bodies have 1-3 await points (a gate future) are polled until they suspend at a chosen await; while suspended a conditional invalidation of the same cache must complete on another thread (3 s watchdog), arbitrary other calls (same and other arguments) and invalidations run, then the call is resumed or dropped; outputs and the dump of every cache instance compared with Cachelito.aStep per operation"), static_stream()],
+                                 what="L2 with manual polling: real #[cache_async] functions whose bodies have 1-3 await points (a gate future) are polled until they suspend at a chosen await; while suspended a conditional invalidation of the same cache must complete on another thread (3 s watchdog), arbitrary other calls (same and other arguments) and invalidations run, then the call is resumed or dropped; outputs and the dump of every cache instance compared with Cachelito.aStep per operation"), static_stream(),
+                    sched_stream(nontrivial=["concurrent-call"], quick=(6, 4, 80),
+                                 what="L3: real threads run async calls (each suspends at the awaits of its body and stores on resumption) against group and conditional invalidations of the same cache under the deterministic scheduler; at quiescence every async cache must be consistent (store = queue as sets, no duplicates, within its limit)")],
         "monitors": ["C20"],
         "rule": "episodes over real async generated functions with begin / resume / drop operations at every await point (k-th of 1..3) interleaved with other operations; non-trivial = a call actually suspended in its body, resumed, or dropped",
         "level_text": "Lean theorems: (locks) after any complete operation skeleton - in particular the lookup phase of an async call - the held set is empty, and threads that hold nothing and are never scheduled cannot block the others (C17.suspended_holds_nothing, progress_despite_suspended); (data) over the model of suspended calls (Async.lean: lookup phase, pending record, finish phase on the CURRENT state): a call begun and resumed at once is exactly an ordinary call; the lookup phase adds or changes no entry; every entry of every cache comes from a COMPLETED call (a value no completed call produced is nowhere); begin; h; drop leaves exactly the state of `lookup only; h` for every history h (pending records never influence other operations); a resume is the ordinary store on the current state, preserves the invariant and the entry limit, returns the body value and (async) leaves the fresh entry stored unless rejected or oversize. The model is compared with the real code per operation.",
@@ -249,7 +257,7 @@ PROPS = {
     "C15": {
         "lean_modules": ["Cachelito.Props.C15", "Cachelito.Props.C15b", "Cachelito.Props.C15c"],
         "streams": [core_stream(nontrivial=["hit", "expiry"]), macro_stream(nontrivial=["stats-get", "stats-reset", "hit"]),
-                    sched_stream(nontrivial=["quiescent-stats-checked"], quick=(6, 4, 60))],
+                    sched_stream(nontrivial=["quiescent-stats-checked"], quick=(6, 4, 60)), hammer_stream()],
         "monitors": ["C15"],
         "rule": "L1: counters in every state dump; L2: stats_registry::get(name) after every call, get/reset by name incl. unknown names; non-trivial = hit, expiry-as-miss, stats query or reset",
         "level_text": "Lean theorems (sequential): every lookup bumps exactly one counter, hits iff it returned a value (an expired entry is a miss), nothing else touches the counters, hits+misses = number of lookups for every history. Tied to the code by the counters in every L1 state dump and by the registry's per-name statistics after every L2 call. Concurrent part: in scheduled runs of real threads (incl. lookups of expired entries racing with each other and with stores) hits+misses at quiescence must equal the number of completed calls and hits the number of calls served from the cache; and (C15c) in the interleaving model the counters equal the number of counted lookups at every point of every schedule and are exact at quiescence, hits = lookups that returned a value (fetch_add atomicity is assumed).",
